@@ -1,6 +1,7 @@
 package props
 
 import (
+	"go/types"
 	"fmt"
 	"go/token"
 	"sort"
@@ -184,5 +185,203 @@ func c12Sides(c *core.Check) {
 	sort.Strings(extra)
 	for _, k := range extra {
 		r.Unknown(k+" | PageValues", p.Pos(pos[k]), "a use of PageValues this rule has no expectation for")
+	}
+}
+
+// c12RepeatedGroups: the space taken by a repeated table footer is withheld from the body rows.
+func c12RepeatedGroups(c *core.Check) {
+	p := c.Prog
+	r := c.Rule("R8", "repeated table header and footer groups: in tableLayout every layout of the body row groups that can only run with a footer kept for the page withholds the footer's height from the space given to the rows (bottomSpace + footerHeight), and every one that can only run without a footer does not — otherwise the rows fill the page and the repeated footer is placed below it", 4)
+	var fn *ssa.Function
+	for _, f := range p.FuncsOfPkg("html/layout") {
+		root := f
+		for root.Parent() != nil {
+			root = root.Parent()
+		}
+		if root.Name() != "tableLayout" {
+			continue
+		}
+		n := 0
+		core.Instrs(f, func(in ssa.Instruction) {
+			if call, ok := in.(*ssa.Call); ok && calleeIsLocal(call, "bodyGroupsLayout") {
+				n++
+			}
+		})
+		if n >= 3 {
+			fn = f
+		}
+	}
+	if fn == nil {
+		r.Anchor("tableLayout: the closure calling bodyGroupsLayout for header/footer combinations")
+		return
+	}
+	// atoms on the footer variable
+	footerAtoms := map[ssa.Value]bool{} // atom -> true when it reads "footer != nil"
+	varName := func(v ssa.Value) string {
+		for i := 0; i < 4; i++ {
+			switch x := v.(type) {
+			case *ssa.Phi:
+				return x.Comment
+			case *ssa.UnOp:
+				if al, ok := x.X.(*ssa.Alloc); ok {
+					return al.Comment
+				}
+				if fv, ok := x.X.(*ssa.FreeVar); ok {
+					return fv.Name()
+				}
+			case *ssa.Extract:
+				return ""
+			}
+			break
+		}
+		return ""
+	}
+	for _, a := range core.CondAtoms(fn) {
+		b, ok := a.(*ssa.BinOp)
+		if !ok || (b.Op != token.EQL && b.Op != token.NEQ) {
+			continue
+		}
+		if k, isK := b.Y.(*ssa.Const); !isK || k.Value != nil {
+			continue
+		}
+		if varName(b.X) == "footer" {
+			footerAtoms[a] = b.Op == token.NEQ
+		}
+	}
+	if len(footerAtoms) == 0 {
+		r.Anchor("tableLayout: tests of the footer group against nil")
+		return
+	}
+	scenario := func(hasFooter bool) map[*ssa.BasicBlock]bool {
+		assign := map[ssa.Value]bool{}
+		for a, isNeq := range footerAtoms {
+			assign[a] = hasFooter == isNeq
+		}
+		return core.ForwardReach(fn.Blocks[0], assign, nil)
+	}
+	with, without := scenario(true), scenario(false)
+	i := 0
+	core.Instrs(fn, func(in ssa.Instruction) {
+		call, ok := in.(*ssa.Call)
+		if !ok || !calleeIsLocal(call, "bodyGroupsLayout") || len(call.Call.Args) < 3 {
+			return
+		}
+		i++
+		// the space argument: the one that derives from the bottomSpace of the enclosing function
+		var space ssa.Value
+		for _, a := range call.Call.Args {
+			if arithDerives(a, func(v ssa.Value) bool { return varName(v) == "bottomSpace" }) {
+				space = a
+			}
+		}
+		key := fmt.Sprintf("html/layout.tableLayout | bodyGroupsLayout #%d", i)
+		if space == nil {
+			r.Unknown(key, p.Pos(call.Pos()), "no argument derives from bottomSpace")
+			return
+		}
+		hasFH := arithDerives(space, func(v ssa.Value) bool { return varName(v) == "footerHeight" })
+		switch {
+		case with[call.Block()] && !without[call.Block()]:
+			r.Cond(hasFH, key+" (only with a footer)", p.Pos(call.Pos()), "bottomSpace + footerHeight", "the body rows are given the whole page although a footer is repeated below them")
+		case without[call.Block()] && !with[call.Block()]:
+			r.Cond(!hasFH, key+" (only without a footer)", p.Pos(call.Pos()), "bottomSpace alone", "the footer's height is withheld although no footer is kept")
+		default:
+			r.Skip(key, p.Pos(call.Pos()), "reachable with and without a footer: not decided")
+		}
+	})
+}
+
+func calleeIsLocal(call *ssa.Call, name string) bool {
+	// a call of a local closure variable: the callee value is a load / free variable named name
+	switch v := call.Call.Value.(type) {
+	case *ssa.UnOp:
+		if al, ok := v.X.(*ssa.Alloc); ok && al.Comment == name {
+			return true
+		}
+		if fv, ok := v.X.(*ssa.FreeVar); ok && fv.Name() == name {
+			return true
+		}
+	case *ssa.FreeVar:
+		return v.Name() == name
+	case *ssa.MakeClosure:
+		return strings.Contains(v.Fn.Name(), name)
+	}
+	if cal := call.Call.StaticCallee(); cal != nil && cal.Name() == name {
+		return true
+	}
+	return false
+}
+
+// c12Retry: the second attempt at laying a child out differs from the first by the space only.
+func c12Retry(c *core.Check) {
+	p := c.Prog
+	r := c.Rule("R9", "break-inside and the empty-page exception: when inFlowLayout lays a child out a second time (its bottom padding or border did not fit), the retry receives the same boolean flags as the first attempt — in particular the same `page is empty` flag, which decides whether break-inside: avoid may be ignored; and the counters of a page's margin boxes are copied once per margin box, inside the function that builds one box", 2)
+	if fn := p.Fn("html/layout", "inFlowLayout"); fn == nil {
+		r.Anchor("html/layout.inFlowLayout")
+	} else {
+		var calls []*ssa.Call
+		core.Instrs(fn, func(in ssa.Instruction) {
+			if call, ok := in.(*ssa.Call); ok && call.Call.StaticCallee() != nil && call.Call.StaticCallee().Name() == "blockLevelLayout" {
+				calls = append(calls, call)
+			}
+		})
+		if len(calls) != 2 {
+			r.Anchor("inFlowLayout: the two calls of blockLevelLayout")
+		} else {
+			callee := calls[0].Call.StaticCallee()
+			var diffs []string
+			for i := range calls[0].Call.Args {
+				a, b := calls[0].Call.Args[i], calls[1].Call.Args[i]
+				if a == b || callee.Params[i].Name() == "bottomSpace" {
+					continue
+				}
+				// the flags only: the other arguments are results threaded from the first attempt to the second
+				if bt, isB := callee.Params[i].Type().Underlying().(*types.Basic); !isB || bt.Kind() != types.Bool {
+					continue
+				}
+				// the same expression evaluated twice (type assertion of the child, loads of the same variable)
+				if fmt.Sprintf("%T", a) == fmt.Sprintf("%T", b) && exprName(a) == exprName(b) && exprName(a) != "_" {
+					continue
+				}
+				if ta, ok := a.(*ssa.TypeAssert); ok {
+					if tb, ok := b.(*ssa.TypeAssert); ok && ta.X == tb.X {
+						continue
+					}
+				}
+				if la, ok := a.(*ssa.UnOp); ok {
+					if lb, ok := b.(*ssa.UnOp); ok && la.X == lb.X {
+						continue
+					}
+				}
+				diffs = append(diffs, callee.Params[i].Name())
+			}
+			r.Cond(len(diffs) == 0, "html/layout.inFlowLayout | retry of blockLevelLayout", p.Pos(calls[1].Pos()), "same flags", "the retry differs from the first attempt in "+strings.Join(diffs, ", ")+": the second layout runs under other rules than the first (a different `page is empty` flag lets it break inside a break-inside: avoid box)")
+		}
+	}
+	// margin boxes: one copy of the page state per box
+	n := 0
+	for _, fn := range p.FuncsOfPkg("html/layout") {
+		root := fn
+		for root.Parent() != nil {
+			root = root.Parent()
+		}
+		if root.Name() != "makeMarginBoxes" {
+			continue
+		}
+		fn := fn
+		core.Instrs(fn, func(in ssa.Instruction) {
+			call, ok := in.(*ssa.Call)
+			if !ok || call.Call.StaticCallee() == nil || call.Call.StaticCallee().Name() != "Copy" {
+				return
+			}
+			if !strings.Contains(call.Call.StaticCallee().String(), "PageState") {
+				return
+			}
+			n++
+			r.Cond(fn.Parent() != nil, "html/layout.makeMarginBoxes | state.Copy()", p.Pos(call.Pos()), "copied inside the closure that builds one margin box", "the page state is copied once for all the margin boxes of a page: a counter changed by one margin box is seen by the next ones")
+		})
+	}
+	if n == 0 {
+		r.Anchor("makeMarginBoxes: copy of the page state")
 	}
 }
